@@ -88,6 +88,9 @@ def training_statistics():
 # exceptions raised inside the library vs. inside the harness
 
 
+TRANSPARENT = {"__torch_function__", "wrapper", "wrapped"}
+
+
 def raised_in_library(exc):
     """True when the innermost frame of the traceback lies in the tree under test (or in torch /
     numpy called from it), i.e. the library - not the harness - failed."""
@@ -99,6 +102,10 @@ def raised_in_library(exc):
         if fn.startswith(REPO + os.sep):
             last_ours = "lib"
         elif fn.startswith(home + os.sep):
+            # forwarding seams (the TorchFunctionMode hook, the recording wrappers around library methods) are
+            # transparent: an error torch raises for the LIBRARY's arguments passes through them unchanged
+            if fr.name in TRANSPARENT and last_ours == "lib":
+                continue
             last_ours = "harness"
     return last_ours == "lib"
 
